@@ -388,11 +388,11 @@ def _find(snapshot, byte_seq, base_addr):
         if len(snapshot) == 0x20000:
             for bank in range(8):
                 i = bank * 16384
-                for a in range(16385 - offset):
+                for a in range(16384 - offset + step):
                     if snapshot[i + a:i + a + offset:step] == byte_values:
                         print("{0}:{1:05}-{2:05}-{3} {0}:{1:04X}-{2:04X}-{3:X}: {4}".format(bank, a, a + offset - step, step, byte_seq))
         else:
-            for a in range(base_addr, 65537 - offset):
+            for a in range(base_addr, 65536 - offset + step):
                 if snapshot[a:a + offset:step] == byte_values:
                     print("{0}-{1}-{2} {0:04X}-{1:04X}-{2:X}: {3}".format(a, a + offset - step, step, byte_seq))
 
